@@ -43,7 +43,10 @@ CheckDef(i) ==
   /\ Emit => PrintT(ToJson([kind |-> "type", idx |-> i, name |-> e.def.name, home |-> e.home, def |-> e.def, nitems |-> Len(e.items)]))
 
 CheckItem(i, j) ==
-  LET e == C[i]  it == e.items[j]  d == e.def  hops == Hops(Defs, it.chain, 1, it.v) IN
+  LET e == C[i]  it == e.items[j]  d == e.def  hops == Hops(Defs, it.chain, 1, it.v)
+      \* per accepted hop: the input of the hop (the previous prediction) and with it the verbose end of the acceptable range
+      ins == [h \in 1..Len(hops) |-> IF h = 1 THEN it.v ELSE hops[h - 1].out]
+      alt == [h \in 1..Len(hops) |-> IF hops[h].ok THEN NormMaxDef(ins[h], Defs[it.chain[h]]) ELSE VNone] IN
   /\ CASE IsConformingClass(it.cls) -> ThmConforming(it.v, d) /\ Len(hops) = 2 /\ hops[2] = hops[1]
        [] it.cls = "new_via_old" ->
             IF e.pair.kind = "field_added" THEN ThmFieldAdded(it.v, e.pair.old, e.pair.new, e.pair.newid)
@@ -56,7 +59,7 @@ CheckItem(i, j) ==
                ELSE r.ok /\ r.out = NormDef(it.v, e.pair.new)
        [] OTHER -> ThmMutation(it.v, d) /\ Len(hops) = 1 /\ ~hops[1].ok
   /\ Emit => PrintT(ToJson([kind |-> "vec", id |-> i * 1000 + j, ty |-> i, cls |-> it.cls, chain |-> it.chain, v |-> ExportV(it.v),
-                            hops |-> [h \in 1..Len(hops) |-> [ok |-> hops[h].ok, out |-> ExportV(hops[h].out)]]]))
+                            hops |-> [h \in 1..Len(hops) |-> [ok |-> hops[h].ok, out |-> ExportV(hops[h].out), alt |-> ExportV(alt[h])]]]))
 
 VARIABLES a, b
 Init == a = 0 /\ b = 0
